@@ -44,6 +44,30 @@ add("C02", "E1",
     "exploration' clause is replaced by enumerated families (sampling is a different technique).",
     "DESIGN.md §4 C02")
 
+add("C03", "E1",
+    "bounded-exhaustive enumeration of instruction sequences vs. reference RAW-with-kill relation",
+    "Every kernel of length 1-2 (and length 3 with a restricted middle instruction) over all "
+    "instruction instances of synthetic ISA databases (all 9 two-operand role vectors, three-operand "
+    "vectors, default rule, zero idiom, hidden flag writer/reader/RMW, memory source/destination, "
+    "composed load incl. read-modify-write, AArch64 pre/post-index with and without p_index_latency, "
+    "AT&T/.cond suffix fall-backs) x register pools with two aliasing widths and one unrelated "
+    "register is analysed by the real add_semantics + create_DG and the edge set and every weight are "
+    "compared with the reference relation; flags on and off.",
+    "Trusted: mc/ref/dg.py + mc/ref/regs.py. Parsed lines are cached per distinct text (parser is "
+    "covered by C09/C10). Depth 3 only; other register pools/latency values not covered.",
+    "DESIGN.md §4 C03")
+add("C05", "E1",
+    "bounded-exhaustive kernel enumeration vs. independent winding-number-1 cycle enumeration",
+    "All kernels up to length 3 (thorough: 4 on a thinned alphabet) over an alphabet built to create "
+    "self-loops, shared nodes, ties, zero-latency members, flag and write-back cycles are analysed by "
+    "the real KernelDG; the reported LCD set (members, edge latencies, totals, keys), the summary "
+    "figure and the LCD column of the text report are compared with a DFS enumeration of "
+    "winding-number-1 cycles over the reference relation of two concatenated iterations; also "
+    "kernels located beyond file line 1000.",
+    "Trusted: mc/ref/dg.py, mc/ref/report.py. Kernels with an edge of ambiguous weight (data and "
+    "write-back register to the same consumer) are skipped and counted.",
+    "DESIGN.md §4 C05")
+
 NOT_YET = {}
 
 def main():
